@@ -77,6 +77,16 @@ Bodies(m) ==
     {B(j, "br", i, 0) : i \in {0, 1, 2, 99}}
     : j \in 1..Len(m.ftypes)}
 
+(* ---- binary layout: every non-custom section at most once and in the order type, import, function, table, memory,
+        global, export, start, element, data count, code, data; custom sections anywhere ---- *)
+Present(m) == {1, 3, 10} \cup (IF m.imptypes # <<>> THEN {2} ELSE {}) \cup (IF m.table THEN {4} ELSE {}) \cup (IF m.mem THEN {5} ELSE {})
+              \cup (IF m.glob # "none" THEN {6} ELSE {}) \cup (IF m.exports # <<>> THEN {7} ELSE {}) \cup (IF m.start >= 0 THEN {8} ELSE {})
+              \cup (IF m.elem.mode # "none" THEN {9} ELSE {}) \cup (IF m.datacount >= 0 THEN {12} ELSE {}) \cup (IF m.data # "none" THEN {11} ELSE {})
+Layouts(m) == {[k |-> "dup", sec |-> x] : x \in Present(m)} \cup       \* the section is followed by a copy of itself
+              {[k |-> "move", sec |-> x] : x \in Present(m) \ {IF m.data # "none" THEN 11 ELSE 10}} \cup   \* swapped with the section after it
+              {[k |-> "custom", sec |-> 0]}                              \* a custom section before every section and at the end
+LayoutValid(m) == m.layout.k \in {"none", "custom"}
+
 (* ---- module-level rules ---- *)
 ExportOK(m, e) == CASE e.k = "func" -> e.i < NF(m) [] e.k = "table" -> e.i < NT(m) [] e.k = "mem" -> e.i < NM(m) [] e.k = "global" -> e.i < NG(m)
 ModuleValid(m) ==
@@ -89,7 +99,7 @@ ModuleValid(m) ==
   /\ m.elem.mode = "active" => m.elem.tbl < NT(m)
   /\ m.data = "active" => NM(m) > 0
   /\ m.datacount >= 0 => m.datacount = ND(m)
-Valid(m) == ModuleValid(m) /\ BodyValid(m, m.body)
+Valid(m) == ModuleValid(m) /\ BodyValid(m, m.body) /\ LayoutValid(m)
 
 (* ---- one replaced module-level reference ---- *)
 Vary(m) ==
@@ -104,10 +114,11 @@ Vary(m) ==
   (IF m.elem.mode = "none" THEN {} ELSE
      {[m EXCEPT !.elem.fs = <<v>>] : v \in Near(NF(m))} \cup {[m EXCEPT !.elem.fs = <<>>]}) \cup
   (IF m.elem.mode # "active" THEN {} ELSE {[m EXCEPT !.elem.tbl = v] : v \in {1, 99}}) \cup
-  {[m EXCEPT !.datacount = v] : v \in {-1, 0, 1, 2}}
+  {[m EXCEPT !.datacount = v] : v \in {-1, 0, 1, 2}} \cup
+  {[m EXCEPT !.layout = v] : v \in Layouts(m)}
 
 VARIABLE c
-Init == \E s \in Shapes : \E m \in Vary(s) : \E b \in Bodies(m) : c = [m EXCEPT !.body = b, !.valid = Valid([m EXCEPT !.body = b])]
+Init == \E s \in Shapes : \E m \in Vary(s) : \E b \in (IF m.layout.k = "none" THEN Bodies(m) ELSE {B(1, "none", 0, 0), B(1, "call", Len(m.imptypes), 0)}) : c = [m EXCEPT !.body = b, !.valid = Valid([m EXCEPT !.body = b])]
 Next == UNCHANGED c
 Spec == Init /\ [][Next]_c
 Emit == PrintT(<<"EMIT", ToJson(c)>>)
